@@ -25,6 +25,7 @@ RULE = (
     "prefix_ok values; (succ-table) all 256 final octets x label lengths {1,2,62,63} x prefix_ok x "
     "3 suffix layouts. non-trivial = two of the names share >=1 label yet differ (case, length or "
     "content), or successor/predecessor had to modify an existing label; distinct by SHA-1"
+    " The comparison family includes 'dot twins' (a literal '.' in one name where the other has a label boundary)."
 )
 ASSUMPTIONS = [
     "reference order: (is_absolute, reversed ASCII-lower-cased labels) compared as tuples of bytes",
